@@ -8,6 +8,7 @@ import PydapModel.Handler
 import Proofs.Handler
 import Proofs.HandlerWF
 import Proofs.HandlerWire
+import Proofs.HandlerTyped
 namespace Pydap.C06
 open Pydap Pydap.Handler
 
@@ -217,6 +218,27 @@ theorem C06_payload_decodes (cds : Dataset) (h : Xdr.WF (tmplOf cds) (dataOf cds
   rw [payload, Xdr.encImpl_eq _ _ h]
   exact this
 
+/-- **constraining only ever selects values**: when every value of the source is a value of the DAP2
+    type its variable or column declares (and column names are unique: `Dataset.TY`), every value of
+    every constrained dataset is a value of the type *its* declaration prints — hyperslabs, selections,
+    record ranges, column projections in any order ("fix sequence data" re-reads rows by column name) -/
+theorem C06_values_stay_typed (ds cds : Dataset) (q : Str) (hds : ds.TY) (h : constrained ds q = .ok cds) :
+    cds.TYo := constrained_ty ds cds q hds h
+
+/-- **the declaration decodes the payload to the printed values — from hypotheses on the source only**:
+    on a well-formed, typed source, for every query that yields a constrained dataset whose declaration
+    has no empty container (and arrays below 2^31 elements: `Shaped`, a property of the DDS text), the
+    payload of the data response is the reference DAP2/XDR encoding (`XdrSpec.enc`) of the data the
+    ASCII response lists, and the client's decoder driven by that declaration reads it back to exactly
+    that data, consuming every byte.  (`C06_payload_decodes` with its hypothesis discharged by
+    `C06_values_stay_typed` and `constrained_wf`.) -/
+theorem C06_payload_decodes_source (ds cds : Dataset) (q : Str) (hw : ds.WF) (ht : ds.TY)
+    (h : constrained ds q = .ok cds) (hs : cds.Shaped) :
+    payload cds = Pydap.XdrSpec.enc (tmplOf cds) (dataOf cds) ∧
+    Xdr.decImpl (tmplOf cds) (payload cds) = .ok (dataOf cds, []) := by
+  have hx := xdrWF_of_typed cds (constrained_wf ds cds q hw h) (constrained_ty ds cds q ht h) hs
+  exact ⟨Xdr.encImpl_eq _ _ hx, C06_payload_decodes cds hx⟩
+
 /-- a String value on the wire is C05's XDR string field (length word, the bytes, zero padding to
     4n) -/
 theorem C06_string_wire (b : Base) (s : Str) (hty : tyOf b.ty = .string) (hs : b.shape = []) (hd : b.data = [.str s]) :
@@ -360,6 +382,14 @@ example : (constrained dsD cs!"flags[1:3],v").toOption.map payload
 example : respond intText dsD cs!"ascii" cs!"flags[1:3]" = .ok .ascii (.complete
     (cs!"Dataset {\n    Byte flags[flags = 3];\n} d;\n" ++ dashes ++ cs!"flags\n[0] 200\n[1] 12\n[2] 255\n\n")) := by
   decide +kernel
+
+/-- the hypotheses of `C06_payload_decodes_source` are met by `dsD` and `flags[0:3],v[1:2]` -/
+example : dsD.TY ∧ cdsD.Shaped := by
+  refine ⟨?_, by simp [cdsD], ?_⟩
+  · intro v hv; simp [dsD] at hv
+    rcases hv with rfl | rfl <;> intro x hx <;> simp at hx <;> rcases hx with rfl | rfl | rfl | rfl | rfl | rfl <;> (unfold okVal; decide)
+  · intro v hv; simp [cdsD] at hv
+    rcases hv with rfl | rfl <;> simp [Var.Shaped, Base.Small, prod]
 
 /-- the hypothesis of `C06_payload_decodes` is met: Byte scalar, Float64 and String values in range -/
 example : Xdr.WF (tmplOf dsD) (dataOf dsD) = true := by decide +kernel
